@@ -1,11 +1,31 @@
 (* C03 — Matched/RestInput contract. Statements + `exact lemma` + Print Assumptions. *)
 From Coq Require Import NArith List Bool.
-From DS Require Import Model.Matched Proofs.MatchedProofs Model.Peg Gen.Grammar Corr.CorrK1.
+From DS Require Import Model.Matched Proofs.MatchedProofs Model.Peg Gen.Grammar Corr.CorrK1 Proofs.PegBounds.
 Import ListNotations.
 
 (* Matched followed by RestInput is exactly the input — for every input and every offset the parser may end at *)
 Theorem C03_matched_rest_split : forall input offset, matched input offset ++ rest input offset = input.
 Proof. exact matched_rest_split. Qed.
+
+(* ... and the offset the PEG interpreter ends at never exceeds the input length — for EVERY grammar, action table,
+   custom-dice matcher (even one that claims more text than there is), flag setting, fuel and input — so the split above
+   applies to what the parser really does: data[:offset] is a legal slice, Matched is a prefix of the input of at most
+   `offset` bytes and RestInput is the rest. *)
+Theorem C03_parse_offset_le_length :
+  forall (cmatch : N -> option N) rules classes acts preds fuel fl bytes,
+  (r_off (parse_custom cmatch rules classes acts preds fuel fl bytes) <= N.of_nat (length bytes))%N.
+Proof. exact parse_offset_le_length. Qed.
+
+Theorem C03_parse_matched_rest_split :
+  forall cmatch rules classes acts preds fuel fl bytes,
+  let o := N.to_nat (r_off (parse_custom cmatch rules classes acts preds fuel fl bytes)) in
+  (o <= length bytes)%nat /\
+  length (firstn o bytes) = o /\
+  matched bytes o ++ rest bytes o = bytes /\
+  (length (matched bytes o) <= o)%nat /\
+  (length (matched bytes o) <= length bytes)%nat /\
+  exists k, (k <= o)%nat /\ matched bytes o = firstn k bytes /\ rest bytes o = skipn k bytes.
+Proof. exact parse_matched_rest_split. Qed.
 
 (* Matched is a prefix of the input that ends at or before the parser's final offset *)
 Theorem C03_matched_is_prefix :
@@ -43,3 +63,5 @@ Print Assumptions C03_tail_contribution_refuted.
 
 Example C03_nonvacuous : matched [49; 43; 50; 32; 227; 128; 128; 41]%N 7 = [49; 43; 50]%N.
 Proof. vm_compute. reflexivity. Qed.
+Print Assumptions C03_parse_offset_le_length.
+Print Assumptions C03_parse_matched_rest_split.
